@@ -140,17 +140,28 @@ def kill_gate(mw=2):
              [["release", "g"]])
 
 
+def die_code(code, mw=2):
+    """a worker ends by signal -code / exit status code while it holds a task"""
+    return P(f"die-code{code}-w{mw}", pool(max_workers=mw),
+             [NEW, sub("a", "ok", 1), ["result", "a"], sub("d", "die", code), sub("c", "ok", 3),
+              WAIT, ["submit_expect", "z"], shutdown(True)])
+
+
 def die_then_submit(mw=2):
     return P(f"die-submit-w{mw}", pool(max_workers=mw),
              [NEW, sub("a", "ok", 1), ["result", "a"], sub("d", "die"), sub("c", "ok", 3), WAIT,
               ["submit_expect", "z"], shutdown(True)])
 
 
-def map_prog(chunksize, lens, mw=2, timeout=None, kind="plain"):
+def map_prog(chunksize, lens, mw=2, timeout=None, kind="plain", shape="list"):
+    """shape: how the iterables are given - lists, one-shot iterators, the SAME iterator passed
+    len(lens) times (the grouper idiom), or generators whose values depend on how far the
+    others have been consumed."""
     fn = {1: "sq", 2: "add", 3: "add3"}[len(lens)]
-    return P(f"map-c{chunksize}-l{'x'.join(map(str, lens))}-w{mw}-t{timeout}",
+    return P(f"map-c{chunksize}-l{'x'.join(map(str, lens))}-w{mw}-t{timeout}"
+             + ("" if shape == "list" else "-" + shape),
              pool(kind, mw, timeout),
-             [NEW, ["map", "m", fn, chunksize, list(lens)], shutdown(True)])
+             [NEW, ["map", "m", fn, chunksize, list(lens), shape], shutdown(True)])
 
 
 def cancel_two_threads(mw=1):
@@ -216,6 +227,22 @@ def forced(mw=2, reusable=False, queued=3):
              ops)
 
 
+def forced_descendants(mw=2, reusable=False, busy=False):
+    """Forced shutdown of workers that own long-lived descendants (subprocesses, nested
+    workers) left by finished tasks; with busy=False no future is unfinished at that time."""
+    ops = [NEW, sub("a", "spawn_child", 1), sub("b", "spawn_child", 2), ["result", "a"],
+           ["result", "b"]]
+    if busy:
+        ops += [sub("g", "gate"), sub("q", "ok", 1)]
+    if reusable:
+        ops += [["reuse", dict(max_workers=mw, kill_workers=True, reuse=False)],
+                sub("n", "ok", 5), ["result", "n"], shutdown(True)]
+    else:
+        ops += [["shutdown", True, True]]
+    return P(f"forced-desc-w{mw}-r{reusable}-b{busy}", pool("reusable" if reusable else "plain", mw),
+             ops)
+
+
 def forced_two_gates(mw=2):
     return P(f"forced-2gates-w{mw}", pool(max_workers=mw),
              [NEW, sub("g1", "gate"), sub("g2", "gate"), sub("q", "ok", 1),
@@ -240,11 +267,12 @@ def timeout_resize(old=2, new=1, timeout=0.05):
               sub("b", "ok", 2), sub("c", "ok", 3), WAIT, shutdown(True)])
 
 
-def saturate(mw=2, extra=1, timeout=None, kind="plain"):
+def saturate(mw=2, extra=1, timeout=None, kind="plain", cpu=2):
     keys = [f"g{i}" for i in range(mw + extra)]
     ops = [NEW] + [sub(k, "gate") for k in keys] + [["expect_inside", mw]]
     ops += [["release", k] for k in keys] + [WAIT, shutdown(True)]
-    return P(f"saturate-w{mw}+{extra}-t{timeout}-{kind}", pool(kind, mw, timeout), ops)
+    return P(f"saturate-w{mw}+{extra}-t{timeout}-{kind}" + (f"-cpu{cpu}" if cpu != 2 else ""),
+             pool(kind, mw, timeout, cpu_count=cpu), ops)
 
 
 def saturate_after_idle(mw=2, timeout=0.05):
